@@ -18,15 +18,15 @@ import (
 
 	"github.com/kardiachain/go-kardia/blockchain"
 	"github.com/kardiachain/go-kardia/consensus"
-	"github.com/kardiachain/go-kardia/lib/p2p"
 	cmn "github.com/kardiachain/go-kardia/lib/common"
+	"github.com/kardiachain/go-kardia/lib/p2p"
 	"github.com/kardiachain/go-kardia/lib/rlp"
-	kproto "github.com/kardiachain/go-kardia/proto/kardiachain/types"
-	"github.com/kardiachain/go-kardia/trie"
-	"github.com/kardiachain/go-kardia/types"
 	"github.com/kardiachain/go-kardia/mainchain/tx_pool"
 	bcproto "github.com/kardiachain/go-kardia/proto/kardiachain/blockchain"
 	prototx "github.com/kardiachain/go-kardia/proto/kardiachain/txpool"
+	kproto "github.com/kardiachain/go-kardia/proto/kardiachain/types"
+	"github.com/kardiachain/go-kardia/trie"
+	"github.com/kardiachain/go-kardia/types"
 
 	cstypes "github.com/kardiachain/go-kardia/consensus/types"
 
@@ -747,10 +747,10 @@ func (rn *Runner) ByzSession(l *live, r *rand.Rand, variant int) bool {
 		if err != nil {
 			return false
 		}
-		pol = []uint32{l.R, l.R + 1, 1<<32 - 1}[(variant/5)%3]
+		pol = []uint32{l.R, l.R + 1, 1<<32 - 1}[(variant/7)%3]
 		data, hash, what = marshal(pb), genuine.Hash(), fmt.Sprintf("valid block, POLRound=%d (round %d)", pol, l.R)
 	case 0: // fabricated block with one invalid aspect (or a valid one)
-		v := (variant / 4) % 11
+		v := (variant / 7) % 11
 		if b2 := makeBlock(e, v); b2 != nil {
 			pb, err := b2.ToProto()
 			if err != nil {
@@ -1154,7 +1154,9 @@ func concurrentGroup(r *core.Run) {
 						rn.run.Eval(1)
 						rn.run.Count("messages", 1)
 						rn.run.Count("messages_delivered_concurrently", 1)
-						wit := func() interface{} { return rn.witness("concurrent", sessions[p], i, map[string]interface{}{"other_peers_at_the_same_time": np - 1}) }
+						wit := func() interface{} {
+							return rn.witness("concurrent", sessions[p], i, map[string]interface{}{"other_peers_at_the_same_time": np - 1})
+						}
 						ret, pan := rn.call("Receive("+rname+" "+m.Kind+")", rname, m.Kind, wit, func() { reactor.Receive(m.Ch, peers[p], m.Bytes) })
 						if !ret {
 							atomic.StoreInt32(&hung, 1)
